@@ -351,7 +351,9 @@ class VM:
         body = self.insns[ip + 1]
         if body["op"] == "Char":
             if not self._representable(body["c"]):
-                # with_scm_loop_impl: ElementType::try_from(c)? -> the whole loop fails
+                # with_scm_loop_impl: a character the input cannot contain never matches (zero iterations)
+                if mn == 0:
+                    return ip + 2, pos
                 return None
         p = pos
         for _ in range(mn):
@@ -481,6 +483,7 @@ class VM:
                 ok = True
             elif op == "EndCaptureGroup":
                 g = insn["g"]
+                self.bts.append(["SetCaptureGroup", g, self.groups[g]])
                 s, e = self.groups[g]
                 self.groups[g] = (s, pos) if fwd else (pos, e)
                 ok = True
@@ -522,7 +525,9 @@ class VM:
                 ok = True
             elif op == "EnterLoop":
                 lid = insn["loop_id"]
-                self.loops[lid] = (0, self.loops[lid][1])
+                if self.loops[lid][0] != 0:
+                    self.bts.append(["SetLoopData", lid, self.loops[lid]])
+                    self.loops[lid] = (0, self.loops[lid][1])
                 nip = self.run_loop(insn, pos, ip)
                 if nip is not None:
                     ip = nip
